@@ -146,6 +146,11 @@ bool flagSet(const std::string &f);
 // engines S and H register themselves here; called from the first (S) / every (H) epoll_wait
 typedef int (*HarnessFn)(const std::vector<std::string> &args);
 void registerHarness(const char *name, HarnessFn fn);
+// idle hooks (engine H harnesses that need squid's own EventLoop/AsyncCallQueue to run between their steps):
+// called at every epoll_wait of the real main loop when the scenario mode is the registered name; return -1 to let the
+// loop go on (epoll_wait returns 0 after advancing the simulated clock by *advanceUs), or >= 0 to end the run with that code
+typedef int (*IdleHookFn)(const std::vector<std::string> &args, uint64_t *advanceUs);
+void registerIdleHook(const char *name, IdleHookFn fn);
 
 // yield hook of the atomic shim (engine S)
 extern void (*g_yieldHook)(const void *addr, int kind);
